@@ -18,7 +18,7 @@
    a cyclic netlist gives Err OutOfFuel. *)
 Require Import Cirbo.Model.Base Cirbo.Model.Gate Cirbo.Model.Den Cirbo.Model.Circuit Cirbo.Model.Eval Cirbo.Model.Sem Cirbo.Model.Cnf.
 Require Import Cirbo.Generated.Tseytin.
-Open Scope Z_scope.
+Local Open Scope Z_scope.
 
 Record tstate : Type := mkT {
   saved : dict Z;            (* saved_lits *)
@@ -116,6 +116,11 @@ Definition arity_okb (c : circuit) : bool :=
              || Den.den_accepts (gtyp (snd kg)) (List.length (gops (snd kg)))) (gates c).
 
 Definition tseytin_wf (c : circuit) : bool := inputs_exactb c && arity_okb c.
+
+(* every operand and every output names a gate of the circuit *)
+Definition closedb (c : circuit) : bool :=
+  forallb (fun kg : label * gate => forallb (has_gate c) (gops (snd kg))) (gates c)
+  && forallb (has_gate c) (outputs c).
 
 (* sigma gives CNF variable i+1 the value the assignment gives the i-th circuit input *)
 Definition agrees_on_inputs (c : circuit) (a : Eval.assignment) (sigma : Z -> bool) : Prop :=
